@@ -21,8 +21,7 @@ import core
 from core import log, REPO, NPROC
 
 ASSUMPTIONS = [
-    "command lines are strings (valid UTF-8): bytes on stdin that are not UTF-8 are outside the property's domain",
-    "the stdin reader is modelled on characters; its UTF-8 decoding (read_char_from_bytes) is exercised by the correspondence (2-, 3-, 4-byte characters) but not modelled",
+    "command lines arrive on stdin as BYTES: the reader's decoder is modelled in Utf8.v (strict reading of valid UTF-8, proved for all scalar values; U+FFFD for anything else, proved total) and tied to the code by the one-stream sessions (DBGS cases with invalid sequences, in-process and through the real binary) and by the byte scripts of this check's CLI stage",
     "the interactive terminal reader (reader/terminal.rs) is the subject of C20, not of this property",
     "the model is the debug profile (debug_assert!, overflow checks); the theorems show no such site is reachable, so the release profile behaves alike (thorough tier runs it too)",
     "the documented grammar is help.txt plus the alias tables of name.rs and the integer syntax documented on Integer::try_parse; `b+2`/`o-8` (radix letter, sign, digit not of the radix) is a malformed integer, not label+offset, as the parser's own tests state (CmdSpec.PrefixedLike)",
@@ -487,6 +486,103 @@ def check_cli(ctx, rnd, nscripts, stats, violations, vkeys):
                                                         "stderr": ref[si][1][2][-1500:]},
                                    "program": PROGRAM})
     stats["cli_scripts"] = len(scripts)
+    # scripts whose bytes are NOT all UTF-8, on stdin: a line with a stray / truncated / overlong / surrogate sequence in it is
+    # rejected like any other line outside the grammar and has no effect; the lines around it mean what they always mean; the
+    # separator behind a truncated character still separates; nothing makes the reader panic
+    bad_lines = [b"\xff", b"move r1 \xc3", b"move r2 x1\xe9", b"m\xf0\x9f\x8dve r3 1", b"\x80\x80\x80", b"move r4 \xed\xa0\x80", b"move r5 \xc0\x80",
+                 b"move r6 7\xe2\x86", b"print r\xf8\x88\x80\x80\x80", b"\xc3", b"move r1\xa0 5"]
+    bjobs = []
+    for k in range(24):
+        good = [rnd.choice(["move r%d %s" % (rnd.randrange(7), rnd.choice(["1", "x10", "#-1", "0x7fff", "b101"])), "print r1", "bogus", "p ^1"]) for _ in range(rnd.randrange(2, 6))]
+        lines, shadow = [], []
+        for g in good:
+            if rnd.random() < 0.6:
+                lines.append(rnd.choice(bad_lines)); shadow.append("bogus")
+            lines.append(g.encode()); shadow.append(g)
+        if rnd.random() < 0.5:
+            lines.append(rnd.choice(bad_lines)); shadow.append("bogus")
+        lines += [b"registers", b"exit"]; shadow += ["registers", "exit"]
+        sep = [rnd.choice([b"\n", b";", b"\r\n", b" ;"]) for _ in lines]
+        data = b"".join(l + s_ for l, s_ in zip(lines, sep))
+        bjobs.append((data, shadow))
+    extra = sorted({c for _, sh in bjobs for c in sh} - set(verdict))
+    if extra:
+        rm2 = ctx.run_model([lines_case(extra[i:i + PACK]) for i in range(0, len(extra), PACK)], tag="c14clib")
+        for i, chunk in enumerate(rm2):
+            for k2, v in enumerate(chunk):
+                verdict[extra[i * PACK + k2]] = v
+
+    def run_bytes(data):
+        try:
+            p = subprocess.run([exe, "debug", asm, "--minimal"], input=data, stdout=subprocess.PIPE, stderr=subprocess.PIPE, timeout=20,
+                               env=dict(os.environ, NO_COLOR="1", RUST_BACKTRACE="0"))
+            return (p.returncode, p.stdout.decode(errors="replace"), p.stderr.decode(errors="replace"))
+        except subprocess.TimeoutExpired:
+            return ("timeout", "", "")
+    with ThreadPoolExecutor(max_workers=NPROC) as ex:
+        bres = list(ex.map(lambda j: run_bytes(j[0]), bjobs))
+    nb = 0
+    for (data, shadow), res in zip(bjobs, bres):
+        stats["cli_runs"] += 1
+        stats["evaluations"] += 1
+        got = final_registers(res[1] + "\n" + res[2]) if res[0] == 0 else None
+        want = predict_registers(shadow, [verdict[c] for c in shadow])
+        if res[0] != 0 or got != want:
+            stats["mismatches"] += 1
+            nb += 1
+            if nb <= 3:
+                violations.append({"kind": "bytes-that-are-not-utf8-on-stdin", "level": "cli", "stdin_bytes": data.hex(),
+                                   "stdin_shown": data.decode("utf-8", "backslashreplace"), "lines_as_the_grammar_sees_them": shadow,
+                                   "result": {"status": res[0], "stdout": res[1][-800:], "stderr": res[2][-800:]},
+                                   "registers": got, "model_predicts": want, "program": PROGRAM,
+                                   "note": "a line holding bytes that are not UTF-8 is a line outside the grammar: rejected, no effect, no panic; the other lines keep their meaning"})
+    stats["cli_byte_scripts"] = len(bjobs)
+
+
+UTF8_ALPHABET = [0x41, 0x7F, 0x80, 0x8F, 0x90, 0x9F, 0xA0, 0xBF, 0xC0, 0xC1, 0xC2, 0xDF, 0xE0, 0xE1, 0xEC, 0xED, 0xEE, 0xEF,
+                 0xF0, 0xF1, 0xF3, 0xF4, 0xF5, 0xF8, 0xFF, 0x3B, 0x0A]
+UTF8_PROGRAM = "halt\n"
+
+
+def check_byte_streams(ctx, rnd, maxlen, nrandom, stats, violations):
+    """The reader's decoder on BYTES (Stdin::read, read_char_from_bytes) vs Utf8.decode_lossy, through one-stream debugger
+    sessions (DBGS, DbgStream.v): the stream is `echo ` + bytes + newline + `exit` - the echo shows what the reader made of
+    the bytes, the `exit` behind it that the line end was not swallowed.  EVERY byte string up to maxlen over an alphabet with
+    a representative of every class the decoder and `from_utf8` distinguish (ASCII, the continuation ranges 80-8F / 90-9F /
+    A0-BF, overlong leads C0 C1, E0 / ED / F0 / F4 with their restricted second bytes, F5 F8 FF, and the separators ; and
+    newline), plus random longer strings."""
+    src = [ord(c) for c in UTF8_PROGRAM]
+    streams = []
+    for n in range(0, maxlen + 1):
+        for tup in itertools.product(UTF8_ALPHABET, repeat=n):
+            streams.append(bytes(tup))
+    for _ in range(nrandom):
+        streams.append(bytes(rnd.choice(UTF8_ALPHABET + [rnd.randrange(0x20, 256)]) for _ in range(rnd.randrange(4, 12))))      # (x01-x03 are the harness's own markers in the captured stderr)
+    cases = []
+    for b in streams:
+        stream = list(b"echo " + b + b"\nexit\n")
+        nums = [0, 3000, len(src)] + src + [0, 0, len(stream)] + stream
+        cases.append("DBGS " + " ".join(f"{v:x}" for v in nums))
+    ri, rm, crashes = ctx.run_both(cases, profile="debug", tag="c14utf8")
+    for c in crashes:
+        idx = c.get("case_index")
+        violations.append({"kind": "implementation-crashed", "level": "byte-stream", "case": cases[idx] if idx is not None else None,
+                           "stream_bytes": streams[idx].hex() if idx is not None else None, "detail": c["tail"]})
+    bad = 0
+    for b, c, a, m in zip(streams, cases, ri, rm):
+        if a is None:
+            continue
+        stats["evaluations"] += 1
+        if a != m:
+            bad += 1
+            stats["mismatches"] += 1
+            if bad <= 4:
+                violations.append({"kind": "byte-stream-reader-vs-model", "level": "byte-stream", "case": c, "stream_bytes": b.hex(),
+                                   "stream_shown": (b"echo " + b).decode("utf-8", "backslashreplace"),
+                                   "implementation": a, "model": m,
+                                   "note": "the line the debugger's stdin reader hands to the parser differs from Utf8.decode_lossy of its bytes "
+                                           "(C14_utf8_reader_total / C14_utf8_keeps_separator are about that model)"})
+    stats["byte_streams"] = len(streams)
 
 
 # ---------------------------------------------------------------- entry points
@@ -524,6 +620,7 @@ def correspondence(ctx, violations, known_hits):
     for prof in profiles:
         check_sessions(ctx, rnd, 150 if quick else 2000, prof, stats, violations, vkeys)
     check_cli(ctx, rnd, 150 if quick else 1500, stats, violations, vkeys)
+    check_byte_streams(ctx, rnd, 3 if quick else 4, 2000 if quick else 50000, stats, violations)
     ctx.cleanup()
     top = dict(sorted(stats["hist"].items(), key=lambda kv: -kv[1]))
     return {
@@ -535,7 +632,8 @@ def correspondence(ctx, violations, known_hits):
                 f"each of {len(POSITIONS)} argument positions {[k for k, _ in POSITIONS]}; readers: scripts x (argument | "
                 f"stdin | split at every command boundary, separator kept or dropped | trailing separator) x (`;` | newline | "
                 f"mixed) in process; CLI: the same variants on the lace binary, final registers predicted from the model's "
-                f"verdicts; distinct = distinct (generator tag, verdict class, command kind / error kind, location kind)",
+                f"verdicts, and byte scripts with ill-formed UTF-8; BYTE STREAMS: every byte string of length <= {3 if quick else 4} over {len(UTF8_ALPHABET)} representative bytes "
+                f"(+ random longer ones) as the argument of `echo` on the one-stream debugger session, reader vs Utf8.decode_lossy ({stats.get('byte_streams', 0)} streams); distinct = distinct (generator tag, verdict class, command kind / error kind, location kind)",
         "exhaustive": True,
         "exhaustive_over": f"argument strings of length <= {maxlen} over {len(ALPHABET)} letters ({n_strings} strings) x "
                            f"{len(POSITIONS)} argument positions; every split point of every generated script",
@@ -546,6 +644,28 @@ def correspondence(ctx, violations, known_hits):
 
 
 def replay(ctx, payload):
+    if payload.get("kind") == "byte-stream-reader-vs-model":
+        ri, rm, _ = ctx.run_both([payload["case"]], profile="debug", tag="replay")
+        log(f"stream         : {payload['stream_shown']!r}")
+        log(f"implementation : {ri[0]}")
+        log(f"model          : {rm[0]}")
+        log("agree" if ri[0] == rm[0] else "DISAGREE")
+        return 0 if ri[0] == rm[0] else 1
+    if payload.get("kind") == "bytes-that-are-not-utf8-on-stdin":
+        exe = ctx.cli()
+        asm = os.path.join(ctx.work, "c14.asm")
+        os.makedirs(ctx.work, exist_ok=True)
+        open(asm, "w").write(PROGRAM)
+        p = subprocess.run([exe, "debug", asm, "--minimal"], input=bytes.fromhex(payload["stdin_bytes"]), stdout=subprocess.PIPE, stderr=subprocess.PIPE,
+                           timeout=20, env=dict(os.environ, NO_COLOR="1", RUST_BACKTRACE="0"))
+        got = final_registers(p.stdout.decode(errors="replace") + "\n" + p.stderr.decode(errors="replace")) if p.returncode == 0 else None
+        log(f"stdin     : {payload['stdin_shown']!r}")
+        log(f"exit      : {p.returncode}   registers: {got}")
+        log(f"predicted : exit 0   registers: {payload['model_predicts']}")
+        log(p.stderr.decode(errors='replace')[-400:])
+        same = p.returncode == 0 and got == payload["model_predicts"]
+        log("agree" if same else "DISAGREE")
+        return 0 if same else 1
     if payload.get("level") == "cli":
         exe = ctx.cli()
         asm = os.path.join(ctx.work, "c14.asm")
